@@ -854,7 +854,15 @@ def _counting_while(fn, blk, k):
         bound = t.left
     else:
         return None
-    if not (isinstance(bound, ast.Name) or (isinstance(bound, ast.Call) and ast.unparse(bound.func) == "len" and len(bound.args) == 1 and isinstance(bound.args[0], ast.Name))):
+    def _bound_ok(b) -> bool:
+        if isinstance(b, (ast.Name, ast.Constant)):
+            return True
+        if isinstance(b, ast.Call) and ast.unparse(b.func) == "len" and len(b.args) == 1 and isinstance(b.args[0], ast.Name):
+            return True
+        if isinstance(b, ast.BinOp) and isinstance(b.op, (ast.Add, ast.Sub)):
+            return _bound_ok(b.left) and _bound_ok(b.right)
+        return False
+    if not _bound_ok(bound):
         return None
     if not W.body:
         return None
